@@ -11,6 +11,7 @@ use crate::rng::Rng;
 use crate::run::*;
 use generic_array::sequence::GenericSequence;
 use generic_array::typenum::{U1048576, U262144};
+
 use generic_array::{box_arr, GenericArray};
 use serde_json::{json, Value};
 
@@ -28,55 +29,71 @@ pub const BIG_CASES: &[&str] = &[
 /// not a check: demonstrates that the small stack really cannot hold the array
 pub const BIG_PROBE: &str = "probe_stack_default_u32_4MiB";
 
+type BigN = U1048576;
+type BigM = U262144;
+
+// one function per case, never inlined: a frame must not reserve space for another case's locals
+#[inline(never)]
+fn big_default_boxed_u32() -> bool {
+    let b = GenericArray::<u32, BigN>::default_boxed();
+    b.len() == 1 << 20 && b.iter().all(|&x| x == 0)
+}
+#[inline(never)]
+fn big_boxed_generate_u32() -> bool {
+    let b = Box::<GenericArray<u32, BigN>>::generate(|i| i as u32 ^ 0x55);
+    b.iter().enumerate().all(|(i, &x)| x == i as u32 ^ 0x55)
+}
+#[inline(never)]
+fn big_box_arr_repeat_u32() -> bool {
+    let b = box_arr![7u32; BigN];
+    b.len() == 1 << 20 && b.iter().all(|&x| x == 7)
+}
+#[inline(never)]
+fn big_boxed_from_iter_u32() -> bool {
+    let b: Box<GenericArray<u32, BigN>> = (0..1u32 << 20).collect();
+    b.iter().enumerate().all(|(i, &x)| x == i as u32)
+}
+#[inline(never)]
+fn big_try_boxed_from_iter_u32() -> bool {
+    let b = GenericArray::<u32, BigN>::try_boxed_from_iter((0..1u32 << 20).map(|x| x.wrapping_mul(3))).unwrap();
+    b.iter().enumerate().all(|(i, &x)| x == (i as u32).wrapping_mul(3))
+}
+#[inline(never)]
+fn big_boxed_generate_u8x16() -> bool {
+    let b = Box::<GenericArray<[u8; 16], BigM>>::generate(|i| [i as u8; 16]);
+    b.iter().enumerate().all(|(i, x)| *x == [i as u8; 16])
+}
+#[inline(never)]
+fn big_default_boxed_u8x16() -> bool {
+    let b = GenericArray::<[u8; 16], BigM>::default_boxed();
+    b.len() == 1 << 18 && b.iter().all(|x| *x == [0u8; 16])
+}
+#[inline(never)]
+fn big_boxed_collect_u8x16() -> bool {
+    let b: Box<GenericArray<[u8; 16], BigM>> = (0..1usize << 18).map(|i| [(i >> 3) as u8; 16]).collect();
+    b.iter().enumerate().all(|(i, x)| *x == [(i >> 3) as u8; 16])
+}
+#[inline(never)]
+fn big_probe_stack_default_u32() -> bool {
+    let a = std::hint::black_box(GenericArray::<u32, BigN>::default());
+    a.iter().all(|&x| x == 0)
+}
+
 /// child side: `gasim bigstack <case>`
 pub fn bigstack_child(case: &str) -> i32 {
-    let case = case.to_string();
-    let h = std::thread::Builder::new()
-        .stack_size(SMALL_STACK)
-        .spawn(move || -> bool {
-            type N = U1048576;
-            type M = U262144;
-            match case.as_str() {
-                "default_boxed_u32_4MiB" => {
-                    let b = GenericArray::<u32, N>::default_boxed();
-                    b.len() == 1 << 20 && b.iter().all(|&x| x == 0)
-                }
-                "boxed_generate_u32_4MiB" => {
-                    let b = Box::<GenericArray<u32, N>>::generate(|i| i as u32 ^ 0x55);
-                    b.iter().enumerate().all(|(i, &x)| x == i as u32 ^ 0x55)
-                }
-                "box_arr_repeat_u32_4MiB" => {
-                    let b = box_arr![7u32; N];
-                    b.len() == 1 << 20 && b.iter().all(|&x| x == 7)
-                }
-                "boxed_from_iter_u32_4MiB" => {
-                    let b: Box<GenericArray<u32, N>> = (0..1u32 << 20).collect();
-                    b.iter().enumerate().all(|(i, &x)| x == i as u32)
-                }
-                "try_boxed_from_iter_u32_4MiB" => {
-                    let b = GenericArray::<u32, N>::try_boxed_from_iter((0..1u32 << 20).map(|x| x.wrapping_mul(3))).unwrap();
-                    b.iter().enumerate().all(|(i, &x)| x == (i as u32).wrapping_mul(3))
-                }
-                "boxed_generate_u8x16_4MiB" => {
-                    let b = Box::<GenericArray<[u8; 16], M>>::generate(|i| [i as u8; 16]);
-                    b.iter().enumerate().all(|(i, x)| *x == [i as u8; 16])
-                }
-                "default_boxed_u8x16_4MiB" => {
-                    let b = GenericArray::<[u8; 16], M>::default_boxed();
-                    b.len() == 1 << 18 && b.iter().all(|x| *x == [0u8; 16])
-                }
-                "boxed_collect_u8x16_4MiB" => {
-                    let b: Box<GenericArray<[u8; 16], M>> = (0..1usize << 18).map(|i| [(i >> 3) as u8; 16]).collect();
-                    b.iter().enumerate().all(|(i, x)| *x == [(i >> 3) as u8; 16])
-                }
-                "probe_stack_default_u32_4MiB" => {
-                    let a = std::hint::black_box(GenericArray::<u32, N>::default());
-                    a.iter().all(|&x| x == 0)
-                }
-                _ => false,
-            }
-        })
-        .unwrap();
+    let f: fn() -> bool = match case {
+        "default_boxed_u32_4MiB" => big_default_boxed_u32,
+        "boxed_generate_u32_4MiB" => big_boxed_generate_u32,
+        "box_arr_repeat_u32_4MiB" => big_box_arr_repeat_u32,
+        "boxed_from_iter_u32_4MiB" => big_boxed_from_iter_u32,
+        "try_boxed_from_iter_u32_4MiB" => big_try_boxed_from_iter_u32,
+        "boxed_generate_u8x16_4MiB" => big_boxed_generate_u8x16,
+        "default_boxed_u8x16_4MiB" => big_default_boxed_u8x16,
+        "boxed_collect_u8x16_4MiB" => big_boxed_collect_u8x16,
+        "probe_stack_default_u32_4MiB" => big_probe_stack_default_u32,
+        _ => return 2,
+    };
+    let h = std::thread::Builder::new().stack_size(SMALL_STACK).spawn(move || f()).unwrap();
     match h.join() {
         Ok(true) => 0,
         Ok(false) => {
